@@ -51,6 +51,7 @@ type checkCfg struct {
 	Assumptions []string
 	Outside     []string
 	Level       string
+	ReplayCwd string // working directory for the native replay binary (default: the package directory)
 	// manifest metadata (read by tools/genmanifest.py)
 	LevelText string
 	LevelNote string
@@ -526,10 +527,23 @@ func nativeReplay(c *checkCfg, paths []string) (string, map[string]replayResult,
 	ovb, _ := json.Marshal(map[string]any{"Replace": repl})
 	ovPath := filepath.Join(work, "overlay.json")
 	os.WriteFile(ovPath, ovb, 0o644)
-	cmd := exec.Command("go", "test", "-vet=off", "-count=1", "-overlay", ovPath, "-run", "^TestVPReplay$", "-timeout", "300s", "-v", c.Package)
-	cmd.Dir = repoDir
-	cmd.Env = append(envWithout("GOTOOLCHAIN", "PATH", "VP_REPLAY"), "PATH="+origPath, "VP_REPLAY="+strings.Join(paths, ":"))
+	env := append(envWithout("GOTOOLCHAIN", "PATH", "VP_REPLAY"), "PATH="+origPath, "VP_REPLAY="+strings.Join(paths, ":"))
+	bin := filepath.Join(work, "replay.test")
+	build := exec.Command("go", "test", "-c", "-vet=off", "-overlay", ovPath, "-o", bin, c.Package)
+	build.Dir = repoDir
+	build.Env = env
 	var out bytes.Buffer
+	build.Stdout = &out
+	build.Stderr = &out
+	if err := runWithTimeout(build, 600*time.Second); err != nil {
+		return out.String(), results, fmt.Errorf("compiling the replay test: %v", err)
+	}
+	cmd := exec.Command(bin, "-test.run", "^TestVPReplay$", "-test.v", "-test.timeout", "300s")
+	cmd.Dir = pkgDirOf(c)
+	if c.ReplayCwd != "" {
+		cmd.Dir = c.ReplayCwd
+	}
+	cmd.Env = env
 	cmd.Stdout = &out
 	cmd.Stderr = &out
 	runErr := runWithTimeout(cmd, 400*time.Second)
